@@ -14,10 +14,19 @@ model : Annet.Rpl.* (Model/Rpl.lean) through op "c14.run": the same streams, par
 oracle: on the real results only — no AclError; parse(output) nesting == yielded nesting; refs(policy output) is a
         subset of defs(list generators' output) by independent regex extraction; per element "lines xor error";
         the full policy stream is the concatenation of the isolated element streams up to the first error.
+glue  : harness/c14glue.py adds generated families for the code that derives list *names* on both sides of the
+        refs/defs clause (HAS_ANY unions: mangle_united_community_list_name / get_used_united_community_lists;
+        or_longer overrides: PrefixListNameGenerator): argument lists naming a list more than once and in different
+        orders, overrides with bounds 0 / None, lists with several overrides used from several policies.  On them the
+        clause "every named list a policy refers to is defined under the same name, exactly once" is evaluated on the
+        rows the real generators yield AND on the ACL-filtered config _run_partial_generator returns; a dangling or
+        doubly defined name is classified by the input construct it belongs to (c14glue.origin), one signature each.
 """
 import json
 import random
 import re
+
+from harness import c14glue
 
 ID = "C14"
 RULE = ("cases = (vendor in {huawei, arista, cumulus}, 1-3 policies x 1-4 statements built with the real RouteMap/R/rule "
@@ -32,7 +41,13 @@ RULE = ("cases = (vendor in {huawei, arista, cumulus}, 1-3 policies x 1-4 statem
         "like field x every ordered subset of set/add/remove x list choices, every as_path verb sequence of length <= 2, "
         "every next_hop target, every scalar setter, every condition field/operator, every result; thorough: longer "
         "sequences and more list choices, 128 x 1500 random programs) + the 10 acl_<vendor> texts compared with the "
-        "model's rule trees; a case is non-trivial when some generator emitted >= 2 lines or an element raised; "
+        "model's rule trees + the name-glue families of harness/c14glue.py (quick 8 x 220 has-any programs: HAS_ANY/HAS "
+        "argument lists naming a list twice, the same lists in other orders / spellings in other statements and policies; "
+        "8 x 220 or-longer programs: overrides drawn from {None,0,m} x {None,0,n}, a palette per program so that one list "
+        "gets several overrides and one override comes from several policies; a systematic part: every override of the "
+        "grid alone and all together, every HAS_ANY spelling of length <= 3 over two lists alone / reversed / next to its "
+        "de-duplicated spelling; thorough: 32 x 900 + 32 x 900 and longer spellings, every pair of overrides); "
+        "a case is non-trivial when some generator emitted >= 2 lines or an element raised; "
         "distinct = distinct case")
 TRUSTED_BASE = [
     "Lean 4.33 kernel; axioms per theorem are listed in axioms_per_theorem (subset of propext, Classical.choice, Quot.sound)",
@@ -102,12 +117,22 @@ def shards(tier, seed):
             out.append(dict(kind="rnd", seed=seed * 100000 + i, n=400))
         out.append(dict(kind="shapes", part=0, parts=1, level=1))
         out.append(dict(kind="acl"))
+        for i in range(8):
+            out.append(dict(kind="glue-has-any", seed=seed * 100000 + 50000 + i, n=220))
+            out.append(dict(kind="glue-or-longer", seed=seed * 100000 + 60000 + i, n=220))
+        for p in range(4):
+            out.append(dict(kind="glue-shapes", part=p, parts=4, level=1))
     else:
         out.append(dict(kind="acl"))
         for i in range(128):
             out.append(dict(kind="rnd", seed=seed * 100000 + 1000 + i, n=1500))
         for p in range(16):
             out.append(dict(kind="shapes", part=p, parts=16, level=2))
+        for i in range(32):
+            out.append(dict(kind="glue-has-any", seed=seed * 100000 + 51000 + i, n=900))
+            out.append(dict(kind="glue-or-longer", seed=seed * 100000 + 61000 + i, n=900))
+        for p in range(16):
+            out.append(dict(kind="glue-shapes", part=p, parts=16, level=2))
     return out
 
 
@@ -437,6 +462,9 @@ def gen(desc):
         for v in ("huawei", "arista"):
             for k in GENS:
                 yield dict(kind="acl", vendor=v, gen=k)
+        return
+    if desc["kind"].startswith("glue-"):
+        yield from c14glue.gen(desc)
         return
     if desc["kind"] == "rnd":
         rng = random.Random(desc["seed"])
@@ -1062,6 +1090,7 @@ def oracle(case, r_cmp):
             pol = [l for l in lines if l.startswith(" ")]
             lst = [l for l in lines if not l.startswith(" ")]
             out.extend(_refs_check(case, vendor, pol, lst, tc))
+            out.extend(_once_check(case, vendor, pol, [([], l) for l in lst]))
         # ---- (5) compositionality of the route-map section
         out.extend(_compose_check_cumulus(case, r))
         return out
@@ -1100,7 +1129,25 @@ def oracle(case, r_cmp):
         for k in GENS[1:]:
             if "none" not in gens[k]["stream"]:
                 lst.extend(t for path, t in gens[k]["stream"]["lines"])
-        out.extend(_refs_check(case, vendor, pol, lst, tc))
+        found = _refs_check(case, vendor, pol, lst, tc)
+        # the same clause on what _run_partial_generator returns (the generators' rows after their own ACL)
+        if all("ok" in gens[k]["partial"] or "none" in gens[k]["partial"] for k in GENS):
+            pol2 = [t for d, t in _tree_rows(gens["policy"]["partial"].get("ok", [])) if d > 0]
+            lst2 = []
+            for k in GENS[1:]:
+                lst2.extend(t for _d, t in _tree_rows(gens[k]["partial"].get("ok", [])))
+            have = {v["sig"] for v in found}
+            for v in _refs_check(case, vendor, pol2, lst2, tc):
+                if v["sig"] not in have:
+                    have.add(v["sig"])
+                    v["what"] += " [in the ACL-filtered config of _run_partial_generator]"
+                    found.append(v)
+        out.extend(found)
+        lst_paths = []
+        for k in GENS[1:]:
+            if "none" not in gens[k]["stream"]:
+                lst_paths.extend((path, t) for path, t in gens[k]["stream"]["lines"])
+        out.extend(_once_check(case, vendor, pol, lst_paths))
     # ---- (5) the policy stream is the concatenation of its elements' streams up to the first error
     out.extend(_compose_check(case, r))
     return out
@@ -1142,10 +1189,75 @@ def _refs_check(case, vendor, pol_lines, list_lines, tc):
             continue
         seen.add((kind, name))
         reason = "empty-list" if _empty_source(case, kind, name) else ("kind-mismatch" if name in dnames else "undefined")
+        # which construct of the input the name belongs to (read off the input alone): one signature per mechanism
+        org = c14glue.origin(case, name) if reason == "undefined" else None
+        if org in ("has-any-list-named-twice", "has-any-other-order", "or-longer-zero-bound", "or-longer-open-bound",
+                   "or-longer-override"):
+            reason = org
+        near = sorted({n for k, n in defs if k == kind})
         out.append(dict(sig="dangling-ref:%s:%s" % (vendor, reason) if reason == "empty-list" else
                         "dangling-ref:%s:%s:%s" % (vendor, kind, reason),
-                        what="%s policy output refers to %s `%s` which the list generators do not define (%s)" % (
-                            vendor, kind, name, reason)))
+                        what="%s policy output refers to %s `%s` which the list generators do not define (%s); "
+                             "defined %s names: %s" % (vendor, kind, name, reason, kind, near[:12])))
+    return out
+
+
+def _tree_rows(tree, depth=0):
+    for k, ch in tree:
+        yield depth, k
+        yield from _tree_rows(ch, depth + 1)
+
+
+# one definition unit = one keyed row of a list: (kind, list name, index / seq); for Arista prefix lists also the block
+ONCE = {
+    "huawei": [(r"^ip (ip-prefix|ipv6-prefix) (\S+) (index \d+) ", {"ip-prefix": "ip-prefix", "ipv6-prefix": "ipv6-prefix"}),
+               (r"^ip (community-filter|large-community-filter|extcommunity-filter|extcommunity-list soo) "
+                r"(?:basic|advanced) (\S+) (index \d+) ",
+                {"community-filter": "community-filter", "large-community-filter": "large-community-filter",
+                 "extcommunity-filter": "extcommunity-filter", "extcommunity-list soo": "extcommunity-list soo"})],
+    "arista": [],
+    "cumulus": [(r"^(ip|ipv6) prefix-list (\S+) (seq \d+) ", {"ip": "ip prefix-list", "ipv6": "ipv6 prefix-list"}),
+                (r"^bgp (community-list|large-community-list|extcommunity) (?:standard|expanded) (\S+) (seq \d+) ",
+                 {"community-list": "community-list", "large-community-list": "large-community-list",
+                  "extcommunity": "extcommunity"})],
+}
+
+
+def _once_check(case, vendor, pol_lines, list_rows):
+    """'... is defined, under the same name': a list the policy refers to has ONE definition - no keyed row of it
+    (index / seq, for Arista the prefix-list block and its seq rows) is emitted a second time"""
+    refs = set(extract(REFS[vendor], pol_lines))
+    count = {}
+    for path, text in list_rows:
+        t = _norm(text)
+        if vendor == "arista":
+            m = re.match(r"^(ip|ipv6) prefix-list (\S+)$", t)
+            if m and not path:
+                key = (m.group(1) + " prefix-list", m.group(2), "block")
+            elif path and re.match(r"^seq \d+ ", t):
+                m = re.match(r"^(ip|ipv6) prefix-list (\S+)$", _norm(path[-1]))
+                if not m:
+                    continue
+                key = (m.group(1) + " prefix-list", m.group(2), " ".join(t.split(" ")[:2]))
+            else:
+                continue
+            count[key] = count.get(key, 0) + 1
+            continue
+        for rx, kinds in ONCE[vendor]:
+            m = re.match(rx, t)
+            if m:
+                key = (kinds[m.group(1)], m.group(2), m.group(3))
+                count[key] = count.get(key, 0) + 1
+                break
+    out = []
+    seen = set()
+    for (kind, name, unit), n in sorted(count.items()):
+        if n > 1 and (kind, name) in refs and (kind, name) not in seen:
+            seen.add((kind, name))
+            org = c14glue.origin(case, name) or "plain"
+            out.append(dict(sig="list-defined-twice:%s:%s:%s" % (vendor, kind, org),
+                            what="%s: %s `%s` which the policy refers to is defined more than once: its %s row is emitted "
+                                 "%d times by the list generator" % (vendor, kind, name, unit, n)))
     return out
 
 
@@ -1221,6 +1333,22 @@ def stats(case, r):
         lab.append("%s:whole-run=%s" % (v, "ok" if allok else "rejected"))
     for e in r["elems"]:
         lab.append("elem:%s:%s=%s" % (v, e["kind"], "lines" if not e["err"] else ("error-after-lines" if e["lines"] else "error")))
+    lab.extend(c14glue.labels(case))
+    if case.get("glue"):
+        done = (r["stream"]["err"] is None) if v == "cumulus" else all(
+            "none" in g["stream"] or g["stream"]["err"] is None for g in r["gens"].values())
+        lab.append("glue:%s:refs-clause-evaluated=%s" % (case["glue"], done))
+        if done:
+            if v == "cumulus":
+                pol = [l for l in r["stream"]["lines"] if l.startswith(" ")]
+            else:
+                pol = [t for path, t in r["gens"]["policy"]["stream"]["lines"] if path]
+            refs = set(extract(REFS[v], pol))
+            for _k, n in refs:
+                if "_OR_" in n:
+                    lab.append("glue:policy-ref:united-name")
+                elif re.search(r"_(unset|\d+)_(unset|\d+)$", n):
+                    lab.append("glue:policy-ref:override-name")
     lab.append("type-consistent=%s" % type_consistent(case))
     lab.append("stmts=%d" % sum(len(p["stmts"]) for p in case["policies"]))
     return lab
